@@ -18,6 +18,16 @@ factory's free variables are an instance of the general scoping rule), `C09_cell
 `C09_defaults_independent_of_reeval`, `C09_defaults_partial`, `C09_call_interface_partial`, `C09_globals`,
 `C09_method`, `C09_decorators`, the assembled `C09_interface_partial`, and three counterexamples.
 
+Growth (round 5): `C09_why_sound`, `C09_fragment`, `C09_partition` (the executable classifier `why` — driver op
+`c09.why` — is sound, its empty answer is the proved fragment, its three finding tags are exactly the three class
+predicates and nothing in the domain is left unclassified); `C09_class_directive`, `C09_name_error` /
+`C09_class_annotation`, `C09_class_cleared` (what happens to EVERY member of each finding class);
+`C09_stmts_are_modelled`, `C09_stmt_*`, `C09_protocol_refines`, `C09_stmts_necessary`, `C09_refinement_partial` (the
+factory protocol as a statement-by-statement refinement over the abstract function object, with name / qualname /
+module / doc / `__dict__`); `C09_unwrap_is_python_call`, `C09_unwrap_receiver_first`,
+`C09_receiver_binds_first_param`, `C09_bound_call_preserved_partial` (bound methods, classmethods, staticmethods,
+`functools.partial` chains, callable objects through `converted_call`).
+
 Three deviations of the pinned tree are stated as counterexamples below; the corresponding theorems carry
 the decidable hypotheses `directiveOnlyFreevar = false`, `annotationUnresolvable = false`,
 `defaultsCleared = false` and are named `…_partial`.
@@ -596,6 +606,74 @@ theorem C09_mismatch (re : Nat → ObjId) (freevars extra : List Name) (inner : 
   rw [e1, hfc]
   simp [hfclen]
 
+private theorem firstBad_exists {p : Name → Bool} : ∀ {l : List Name}, (∃ x ∈ l, p x = false) →
+    ∃ n, firstBad p l = some n
+  | [], h => by obtain ⟨x, hx, _⟩ := h; simp at hx
+  | y :: ys, h => by
+    simp only [firstBad]
+    by_cases hy : p y = true
+    · simp only [hy, if_true]
+      apply firstBad_exists
+      obtain ⟨x, hx, hpx⟩ := h
+      rcases List.mem_cons.mp hx with rfl | hx
+      · rw [hy] at hpx; cases hpx
+      · exact ⟨x, hx, hpx⟩
+    · exact ⟨y, by simp [hy]⟩
+
+/-- **Characterisation of the second failing class**: every free variable is still mentioned, but a name evaluated
+when the generated `def` runs is neither one of the factory's own names, nor a free variable, nor a global /
+builtin: executing the inner factory raises NameError for one such name — for every closure shape. -/
+theorem C09_name_error (re : Nat → ObjId) (freevars extra : List Name) (inner : Name) (e : Entity)
+    (M : List Name) (G : DictId) (cl : List Cell) (d : Option (List ObjId))
+    (kd : Option (List (Name × ObjId)))
+    (hlen : cl.length = freevars.length) (hnd : freevars.Nodup)
+    (href : ∀ x ∈ freevars, x ∈ e.bodyRefs ∨ x ∈ e.defTimeRefs)
+    (hfresh : FreshNames freevars extra inner e)
+    (hbad : ∃ x ∈ e.defTimeRefs, x ∉ innerBound extra e.name ∧ x ∉ freevars ∧ x ∉ M) :
+    ∃ n ∈ e.defTimeRefs, (n ∉ innerBound extra e.name ∧ n ∉ M) ∧
+      instantiate re (create freevars extra inner e) M G cl d kd = .error (.nameError n) := by
+  have hsub : ∀ x ∈ (create freevars extra inner e).codeFreevars, x ∈ freevars := by
+    intro x hx
+    rw [mem_codeFreevars_create] at hx
+    rcases hx.2.1 with h1 | h1
+    · exact h1
+    · subst h1
+      rcases hx.1 with h2 | h2
+      · exact absurd h2 hfresh.inner_fresh.1
+      · exact absurd h2 hfresh.inner_fresh.2
+  have hsup : ∀ x ∈ freevars, x ∈ (create freevars extra inner e).codeFreevars := by
+    intro x hx
+    exact mem_codeFreevars_create.mpr ⟨href x hx, Or.inl hx, fun hb => hfresh.locals_fresh x hb hx⟩
+  have hcfnd : (create freevars extra inner e).codeFreevars.Nodup := nodup_sortDedup _
+  have hleneq : (create freevars extra inner e).codeFreevars.length = freevars.length :=
+    Nat.le_antisymm (length_le_of_nodup_subset hcfnd hsub) (length_le_of_nodup_subset hnd hsup)
+  have hsome : ∀ x ∈ (create freevars extra inner e).codeFreevars,
+      (dictGet (freevars.zip cl) x).isSome := by
+    intro x hx
+    rw [dictGet_eq_lookup _ (nodup_keys_zip hnd)]
+    exact lookup_zip_isSome (by omega) (hsub x hx)
+  obtain ⟨fc, hfc⟩ := lookupAll_succeeds hsome
+  have hfclen : fc.length = cl.length := by
+    rw [(lookupAll_ok hfc).1, hleneq, hlen]
+  obtain ⟨n, hn⟩ := firstBad_exists (p := fun x => decide (x ∈ innerBound extra e.name)
+      || decide (x ∈ (create freevars extra inner e).codeFreevars) || decide (x ∈ M)) (l := e.defTimeRefs) (by
+    obtain ⟨x, hx, h1, h2, h3⟩ := hbad
+    have : x ∉ (create freevars extra inner e).codeFreevars := fun hc => h2 (hsub x hc)
+    exact ⟨x, hx, by simp [h1, this, h3]⟩)
+  have hn' := firstBad_some hn
+  have hnp : n ∉ innerBound extra e.name ∧ n ∉ M := by
+    have := hn'.2
+    simp only [Bool.or_eq_false_iff, decide_eq_false_iff_not] at this
+    exact ⟨this.1.1, this.2⟩
+  refine ⟨n, hn'.1, hnp, ?_⟩
+  have e1 : (create freevars extra inner e).freevars = freevars := rfl
+  have e2 : (create freevars extra inner e).extraLocals = extra := rfl
+  have e3 : (create freevars extra inner e).entity = e := rfl
+  unfold instantiate
+  simp only
+  rw [e1, hfc]
+  simp only [hfclen, ne_eq, not_true_eq_false, if_false, e2, e3, hn]
+
 /-- **Parameters**: names, kinds and order of the converted function are the source's. -/
 theorem C09_params (re : Nat → ObjId) (extra : List Name) (newName inner : Name) (M : List Name)
     (s : Src) (c : Callable) (g : Fn) (h : transformFunction re extra newName inner M s c = .ok g) :
@@ -908,6 +986,430 @@ theorem C09_call_interface_partial (re : Nat → ObjId) (extra : List Name) (new
   have hd := C09_defaults_partial re extra newName inner M s c g h hcl
   simp only [Fn.callInterface, C09_params re extra newName inner M s c g h, hp, hd.1, hd.2.1]
 
+/-! ### The factory protocol, statement by statement (refinement) -/
+
+/-- **The extracted body of `instantiate` is the statement list the model gives meaning to** (in source order). -/
+theorem C09_stmts_are_modelled : Malt.Gen.Closure.instantiateStmts = modelledStmts := by decide
+
+/-- Cells are matched by name (`closure_map[name] for name in factory_code.co_freevars`). -/
+theorem C09_stmt_cells_by_name :
+    Malt.Gen.Closure.Stmt.closureMap ∈ Malt.Gen.Closure.instantiateStmts ∧
+    Malt.Gen.Closure.Stmt.matchCells .byName ∈ Malt.Gen.Closure.instantiateStmts := by decide
+
+/-- The length check guarding against lost free variables is there. -/
+theorem C09_stmt_length_check : Malt.Gen.Closure.Stmt.lengthCheck ∈ Malt.Gen.Closure.instantiateStmts := by decide
+
+/-- `globals_` and the matched cells (and no defaults) are what `types.FunctionType` receives. -/
+theorem C09_stmt_globals_and_closure_rebound :
+    Malt.Gen.Closure.Stmt.bindFactory .factoryCode .param .empty .factoryClosure ∈ Malt.Gen.Closure.instantiateStmts := by
+  decide
+
+/-- The bound factory is called with the extra locals (`ag__`). -/
+theorem C09_stmt_factory_called : Malt.Gen.Closure.Stmt.callFactory true ∈ Malt.Gen.Closure.instantiateStmts := by
+  decide
+
+/-- `if defaults: new_fn.__defaults__ = defaults` is there. -/
+theorem C09_stmt_defaults_restored :
+    Malt.Gen.Closure.Stmt.restoreDefaults .truthy .param ∈ Malt.Gen.Closure.instantiateStmts := by decide
+
+/-- `if kwdefaults: new_fn.__kwdefaults__ = kwdefaults` is there. -/
+theorem C09_stmt_kwdefaults_restored :
+    Malt.Gen.Closure.Stmt.restoreKwdefaults .truthy .param ∈ Malt.Gen.Closure.instantiateStmts := by decide
+
+/-- **Refinement**: running the extracted statements one by one over the local state of `instantiate` computes
+exactly `instantiate` — for every factory, globals dict, closure tuple, defaults and kwdefaults. -/
+theorem C09_protocol_refines (re : Nat → ObjId) (fac : Factory) (M : List Name) (G : DictId) (cl : List Cell)
+    (d : Option (List ObjId)) (kd : Option (List (Name × ObjId))) :
+    instantiateBy Malt.Gen.Closure.instantiateStmts re fac M G cl d kd = instantiate re fac M G cl d kd := by
+  rw [C09_stmts_are_modelled]
+  simp only [instantiateBy, modelledStmts, runStmts, stepStmt, instantiate]
+  cases hl : lookupAll (fac.freevars.zip cl) fac.codeFreevars with
+  | error e => simp
+  | ok fc =>
+    simp only
+    by_cases hlen : fc.length = cl.length
+    · simp only [hlen, ne_eq, not_true_eq_false, if_false]
+      cases hb : firstBad (fun x => decide (x ∈ innerBound fac.extraLocals fac.entity.name)
+                        || decide (x ∈ fac.codeFreevars) || decide (x ∈ M)) fac.entity.defTimeRefs with
+      | some n => simp
+      | none => simp
+    · simp [hlen]
+
+/-! ### The proved fragment as an executable classifier (`c09.why`) -/
+
+private theorem ite_nil_left {c : Prop} [Decidable c] {x : Why} : (if c then ([] : List Why) else [x]) = [] ↔ c := by
+  by_cases h : c <;> simp [h]
+
+private theorem ite_nil_right {c : Prop} [Decidable c] {x : Why} : (if c then [x] else ([] : List Why)) = [] ↔ ¬ c := by
+  by_cases h : c <;> simp [h]
+
+private theorem mem_ite_left {c : Prop} [Decidable c] {x t : Why} :
+    t ∈ (if c then ([] : List Why) else [x]) ↔ (¬ c ∧ t = x) := by
+  by_cases h : c <;> simp [h]
+
+private theorem mem_ite_right {c : Prop} [Decidable c] {x t : Why} :
+    t ∈ (if c then [x] else ([] : List Why)) ↔ (c ∧ t = x) := by
+  by_cases h : c <;> simp [h]
+
+private theorem freshNamesB_iff (freevars extra : List Name) (inner : Name) (e : Entity) :
+    freshNamesB freevars extra inner e = true ↔ FreshNames freevars extra inner e := by
+  simp only [freshNamesB, Bool.and_eq_true, List.all_eq_true, Bool.not_eq_true', decide_eq_false_iff_not]
+  constructor
+  · rintro ⟨⟨h1, h2⟩, h3⟩; exact ⟨h1, h2, h3⟩
+  · rintro ⟨h1, h2, h3⟩; exact ⟨⟨h1, h2⟩, h3⟩
+
+/-- **The classifier is sound**: an entity with no tag satisfies every hypothesis of `C09_interface_partial`. -/
+theorem C09_why_sound (extra : List Name) (newName inner : Name) (M : List Name) (s : Src) (c : Callable)
+    (h : why extra newName inner M s c = []) :
+    Describes s c.fn ∧ FreshNames c.fn.code.freevars extra inner (convertEntity extra newName s) ∧
+    directiveOnlyFreevar s c.fn.code.freevars = false ∧ annotationUnresolvable s c.fn.code.freevars M = false ∧
+    defaultsCleared s c.fn = false := by
+  simp only [why, describesWhy, List.append_eq_nil_iff, ite_nil_left, ite_nil_right, List.all_eq_true,
+    decide_eq_true_eq, Bool.not_eq_true, and_assoc] at h
+  obtain ⟨h1, h2, h3, h4, h5, h6, h7, h8⟩ := h
+  exact ⟨⟨h1, h2, h3, h4⟩, (freshNamesB_iff _ _ _ _).mp h5, h6, h7, h8⟩
+
+/-- **The proved fragment**: for every entity the classifier leaves untagged — whatever its signature, closure
+shape, kind (function, lambda, bound method) — the conversion succeeds and the result has the source's
+parameters, default objects, globals dict and, for every free variable, the very same cell. -/
+theorem C09_fragment (re : Nat → ObjId) (extra : List Name) (newName inner : Name) (M : List Name)
+    (s : Src) (c : Callable) (h : why extra newName inner M s c = []) :
+    ∃ g, transformFunction re extra newName inner M s c = .ok g ∧
+      g.callInterface = c.fn.callInterface ∧ g.globals = c.fn.globals ∧
+      (∀ x ∈ g.code.freevars, x ∉ innerBound extra newName → cellOf g x = cellOf c.fn x) ∧
+      (∀ x ∈ c.fn.code.freevars, (∃ o ∈ s.occs, o.name = x ∧ o.inDirective = false) →
+          x ∈ g.code.freevars ∧ (cellOf c.fn x).isSome ∧ cellOf g x = cellOf c.fn x) := by
+  obtain ⟨hd, hf, h1, h2, h3⟩ := C09_why_sound extra newName inner M s c h
+  obtain ⟨g, hg, _, _, _, hgl, hc1, hc2⟩ := C09_interface_partial re extra newName inner M s c hd hf h1 h2 h3
+  exact ⟨g, hg, C09_call_interface_partial re extra newName inner M s c g hd.params hg h3, hgl, hc1, hc2⟩
+
+/-- **Theorem + classifier partition the inputs**: the three finding tags are exactly the three class
+predicates, and an entity that is a well-formed description without name collisions (the domain) is either in
+the proved fragment or carries a finding tag — there is no unclassified remainder. -/
+theorem C09_partition (extra : List Name) (newName inner : Name) (M : List Name) (s : Src) (c : Callable) :
+    (Why.directiveOnly ∈ why extra newName inner M s c ↔ directiveOnlyFreevar s c.fn.code.freevars = true) ∧
+    (Why.annotation ∈ why extra newName inner M s c ↔ annotationUnresolvable s c.fn.code.freevars M = true) ∧
+    (Why.cleared ∈ why extra newName inner M s c ↔ defaultsCleared s c.fn = true) ∧
+    (Describes s c.fn → FreshNames c.fn.code.freevars extra inner (convertEntity extra newName s) →
+      (why extra newName inner M s c = [] ∨ ∃ t ∈ why extra newName inner M s c, t.isFindingClass = true) ∧
+      ∀ t ∈ why extra newName inner M s c, t.isFindingClass = true) := by
+  refine ⟨?_, ?_, ?_, ?_⟩
+  · simp [why, describesWhy]
+  · simp [why, describesWhy]
+  · simp [why, describesWhy]
+  · intro hd hf
+    have hfb := (freshNamesB_iff _ _ _ _).mpr hf
+    have hall : ∀ t ∈ why extra newName inner M s c, t.isFindingClass = true := by
+      intro t ht
+      simp only [why, describesWhy, hd.params, hd.nodup, hd.closure_len, hfb, if_true, List.append_nil,
+        List.nil_append, List.mem_append, mem_ite_right] at ht
+      have h4 : (c.fn.code.freevars.all fun x => decide (x ∈ s.occs.map Occ.name)) = true := by
+        simp only [List.all_eq_true, decide_eq_true_eq]; exact hd.free_referenced
+      simp only [h4, if_true, List.not_mem_nil, false_or] at ht
+      rcases ht with (⟨_, rfl⟩ | ⟨_, rfl⟩) | ⟨_, rfl⟩ <;> rfl
+    refine ⟨?_, hall⟩
+    cases hw : why extra newName inner M s c with
+    | nil => exact Or.inl rfl
+    | cons t ts => exact Or.inr ⟨t, by simp, hall t (by simp [hw])⟩
+
+/-
+FULL STATEMENT (false of the pinned code for the entities of the three finding classes, see `C09_class_directive`,
+`C09_class_annotation`, `C09_class_cleared`): `C09_refinement_partial` for ALL entities, i.e. with the hypothesis
+`why … = []` weakened to the domain condition `Describes ∧ FreshNames`.
+-/
+
+/-- **C09 over the abstract function object, stated once** (partial: the entity carries no `c09.why` tag).
+`malt.to_graph`, run through the statement list extracted from `instantiate`, returns a function object with
+* the source's parameter list (names, kinds, order — hence the `/` and `*` markers), and the same call interface;
+* `__defaults__` / `__kwdefaults__` that ARE the source's tuple / dict whenever it has any;
+* `__globals__` that IS the source's dict;
+* for every free variable the SAME cell, so a rebinding through either function is read by the other;
+* `__name__` = the generated entity name (`<lambda>` for a lambda), `__qualname__` =
+  `outer_factory.<locals>.inner_factory.<locals>.<name>`, `__module__` = the module named by the source's globals,
+  `__doc__` = the source docstring, and a fresh `__dict__` holding exactly `ag_module`, `ag_source_map`,
+  `autograph_info__` (nothing of the source's `__dict__`, e.g. `__wrapped__`, is carried over). -/
+theorem C09_refinement_partial (modName : DictId → Nat) (re : Nat → ObjId) (extra : List Name)
+    (newName inner outer : Name) (M : List Name) (s : Src) (c : Callable)
+    (h : why extra newName inner M s c = []) :
+    ∃ g, toGraph modName re extra newName inner outer M s c = .ok g ∧
+      g.code.params = c.fn.code.params ∧ g.callInterface = c.fn.callInterface ∧
+      (truthy c.fn.defaults = true → g.defaults = c.fn.defaults) ∧
+      (truthy c.fn.kwdefaults = true → g.kwdefaults = c.fn.kwdefaults) ∧
+      g.globals = c.fn.globals ∧
+      (∀ x ∈ g.code.freevars, x ∉ innerBound extra newName → cellOf g x = cellOf c.fn x) ∧
+      (∀ x ∈ c.fn.code.freevars, (∃ o ∈ s.occs, o.name = x ∧ o.inDirective = false) →
+          x ∈ g.code.freevars ∧ cellOf g x = cellOf c.fn x ∧
+          ∀ (σ : Store) (v : ObjId), readVar (writeVar σ c.fn x v) g x = some v ∧
+                                     readVar (writeVar σ g x v) c.fn x = some v) ∧
+      g.name = s.lambdaName.getD newName ∧ g.qualname = [outer, inner, s.lambdaName.getD newName] ∧
+      g.module = modName c.fn.globals ∧ g.doc = s.doc ∧
+      g.dict = [Attr.agModule, Attr.agSourceMap, Attr.autographInfo] := by
+  obtain ⟨g0, hg0, hci, hgl, hc1, hc2⟩ := C09_fragment re extra newName inner M s c h
+  obtain ⟨hd, _, _, _, h3⟩ := C09_why_sound extra newName inner M s c h
+  have hdef := C09_defaults_partial re extra newName inner M s c g0 hg0 h3
+  have hrun : instantiateBy Malt.Gen.Closure.instantiateStmts re
+      (create c.fn.code.freevars extra inner (convertEntity extra newName s)) M c.fn.globals c.fn.closure
+      c.fn.defaults c.fn.kwdefaults = .ok g0 := by
+    rw [C09_protocol_refines]; exact hg0
+  refine ⟨toGraphMeta (convertActualMeta (defMeta modName outer inner newName s g0)), ?_, ?_, ?_, ?_, ?_, ?_, ?_, ?_,
+    rfl, rfl, ?_, rfl, rfl⟩
+  · simp only [toGraph, hrun]
+  · have := C09_params re extra newName inner M s c g0 hg0
+    simp only [toGraphMeta, convertActualMeta, defMeta]
+    rw [this, hd.params]
+  · simpa [Fn.callInterface, toGraphMeta, convertActualMeta, defMeta] using hci
+  · exact hdef.2.2.1
+  · exact hdef.2.2.2
+  · exact hgl
+  · intro x hx hnb
+    exact hc1 x hx hnb
+  · intro x hx ho
+    obtain ⟨h1, h2, h3'⟩ := hc2 x hx ho
+    refine ⟨h1, h3', ?_⟩
+    intro σ v
+    have hr := C09_rebinding c.fn g0 x h3' h2 σ v
+    exact ⟨hr.1, hr.2.1⟩
+  · simp only [toGraphMeta, convertActualMeta, defMeta]; rw [hgl]
+
+private def necFac : Factory := create [0, 1, 4] [2] 5 (convertEntity [2] 3
+  { args := { posonlyargs := [], args := [7, 8], vararg := none, kwonlyargs := [6],
+              kwDefaults := [some (.orig 1)], kwarg := none, defaults := [.orig 0] },
+    decorators := [], annRefs := [], occs := [⟨4, false⟩, ⟨1, false⟩, ⟨0, false⟩] })
+
+private def necRun (stmts : List Malt.Gen.Closure.Stmt) : Except Err Fn :=
+  instantiateBy stmts (fun _ => 0) necFac [] 77 [.outer 10, .outer 11, .outer 12] (some [501]) (some [(6, 502)])
+
+/-- **Every re-binding statement is needed**: on an example function (`def f(p, q=…, *, k=…)` closing over
+three variables), the statement list with one re-binding statement dropped either cannot be run at all or
+returns a function that deviates — cells, globals, defaults, keyword-only defaults are each restored by exactly
+one statement. -/
+theorem C09_stmts_necessary :
+    (necRun modelledStmts).map Fn.closure = .ok [.outer 10, .outer 11, .factoryLocal 2, .outer 12] ∧
+    (necRun modelledStmts).map Fn.globals = .ok 77 ∧
+    (necRun modelledStmts).map Fn.defaults = .ok (some [501]) ∧
+    (necRun modelledStmts).map Fn.kwdefaults = .ok (some [(6, 502)]) ∧
+    (necRun (modelledStmts.erase (.restoreKwdefaults .truthy .param))).map Fn.kwdefaults = .ok (some [(6, noneObj)]) ∧
+    (necRun (modelledStmts.erase (.restoreDefaults .truthy .param))).map Fn.defaults = .ok (some [noneObj]) ∧
+    necRun (modelledStmts.erase (.matchCells .byName)) = .error .protocol ∧
+    necRun (modelledStmts.erase (.bindFactory .factoryCode .param .empty .factoryClosure)) = .error .protocol ∧
+    necRun (modelledStmts.erase (.callFactory true)) = .error .protocol := by decide
+
+/-! ### Bound objects: `self` / `cls` binding through `converted_call` -/
+
+/-- **The unwrapping of `converted_call` is Python's own dispatch**: for every callable built from functions, bound
+methods (instances, or classes for classmethods), `functools.partial` chains and objects with `__call__`, the
+function Python would finally run and the arguments it would run it with are exactly the conversion target and the
+effective arguments `converted_call` computes. -/
+theorem C09_unwrap_is_python_call (c : PyCallable) : ∀ (a : List ObjId) (k : List (Name × ObjId)),
+    ∃ last, (pyCallChain c a k).getLast? = some last ∧
+      last.2.1 = (unwrap c a k).args ∧ last.2.2 = (unwrap c a k).kwargs ∧
+      (∀ f, (unwrap c a k).target = some f → last.1 = PyCallable.function f) ∧
+      ((unwrap c a k).target = none → ∃ i, last.1 = PyCallable.other i) := by
+  induction c with
+  | function f => intro a k; exact ⟨_, rfl, rfl, rfl, by intro g hg; simp [unwrap] at hg; simp [hg], by simp [unwrap]⟩
+  | boundMethod s f =>
+    intro a k; exact ⟨_, rfl, rfl, rfl, by intro g hg; simp [unwrap] at hg; simp [hg], by simp [unwrap]⟩
+  | partialOf c pa pk ih =>
+    intro a k
+    obtain ⟨last, h1, h2, h3, h4, h5⟩ := ih (pa ++ a) (dictUpdate pk k)
+    refine ⟨last, ?_, h2, h3, h4, h5⟩
+    simp only [pyCallChain]
+    cases hc : pyCallChain c (pa ++ a) (dictUpdate pk k) with
+    | nil => simp [hc] at h1
+    | cons x xs => rw [hc] at h1; simp [List.getLast?_cons_cons, h1]
+  | callableObject o call =>
+    intro a k; exact ⟨_, rfl, rfl, rfl, by intro g hg; simp [unwrap] at hg; simp [hg], by simp [unwrap]⟩
+  | other i => intro a k; exact ⟨_, rfl, rfl, rfl, by simp [unwrap], fun _ => ⟨i, rfl⟩⟩
+
+/-- **The receiver stays first through any chain of partials**: the arguments frozen by the partials follow the
+instance / class (innermost partial first), the call's own arguments come last. -/
+theorem C09_unwrap_receiver_first (s : ObjId) (f : Fn) :
+    ∀ (chain : List (List ObjId × List (Name × ObjId))) (pre : List ObjId) (a : List ObjId) (k : List (Name × ObjId))
+      (c : PyCallable), (∀ a' k', (unwrap c a' k').target = some f ∧ (unwrap c a' k').args = s :: pre ++ a') →
+      (unwrap (wrapPartials c chain) a k).target = some f ∧
+      ∃ frozen, (unwrap (wrapPartials c chain) a k).args = s :: pre ++ frozen ++ a
+  | [], pre, a, k, c, h => ⟨(h a k).1, [], by simp [wrapPartials, (h a k).2]⟩
+  | (pa, pk) :: rest, pre, a, k, c, h => by
+    have h' : ∀ a' k', (unwrap (.partialOf c pa pk) a' k').target = some f ∧
+        (unwrap (.partialOf c pa pk) a' k').args = s :: (pre ++ pa) ++ a' := by
+      intro a' k'
+      simp only [unwrap]
+      exact ⟨(h _ _).1, by rw [(h _ _).2]; simp⟩
+    obtain ⟨h1, frozen, h2⟩ := C09_unwrap_receiver_first s f rest (pre ++ pa) a k (.partialOf c pa pk) h'
+    exact ⟨h1, pa ++ frozen, by simp only [wrapPartials]; rw [h2]; simp⟩
+
+/-- A receiver passed first is bound to the first positional parameter (`self` / `cls`). -/
+theorem C09_receiver_binds_first_param (params : List (Name × Kind)) (p : Name) (kd : Kind) (ps : List (Name × Kind))
+    (hp : params = (p, kd) :: ps) (hk : kd = Kind.posOnly ∨ kd = Kind.posOrKw) (s : ObjId) (a : List ObjId) :
+    (bindPositional params (s :: a)).head? = some (p, s) := by
+  subst hp
+  rcases hk with rfl | rfl <;> simp [bindPositional]
+
+/-- **`self` / `cls` binding is preserved** (partial: the conversion target carries no `c09.why` tag): whatever
+callable is handed to `converted_call`, the converted target has the call interface of the function Python itself
+would run, so the effective arguments bind to the same parameters — in particular the receiver of a bound method,
+classmethod or callable object to the first parameter. -/
+theorem C09_bound_call_preserved_partial (re : Nat → ObjId) (extra : List Name) (newName inner : Name)
+    (M : List Name) (src : Src) (pc : PyCallable) (a : List ObjId) (k : List (Name × ObjId)) (f : Fn)
+    (ht : (unwrap pc a k).target = some f) (h : why extra newName inner M src (.function f) = []) :
+    ∃ g, transformFunction re extra newName inner M src (.function f) = .ok g ∧
+      g.callInterface = f.callInterface ∧
+      bindPositional g.code.params (unwrap pc a k).args = bindPositional f.code.params (unwrap pc a k).args ∧
+      (∃ last, (pyCallChain pc a k).getLast? = some last ∧ last.1 = PyCallable.function f ∧
+        last.2.1 = (unwrap pc a k).args ∧ last.2.2 = (unwrap pc a k).kwargs) := by
+  obtain ⟨g, hg, hci, _⟩ := C09_fragment re extra newName inner M src (.function f) h
+  obtain ⟨last, h1, h2, h3, h4, _⟩ := C09_unwrap_is_python_call pc a k
+  have hp : g.code.params = f.code.params := by
+    have := congrArg Prod.fst hci
+    simpa [Fn.callInterface, Callable.fn] using this
+  exact ⟨g, hg, hci, by rw [hp], last, h1, h4 f ht, h2, h3⟩
+
+/-! ### Conversely: what happens in each finding class (for all entities of the class) -/
+
+private theorem href_of_not_directive {extra : List Name} {newName : Name} {s : Src} {freevars : List Name}
+    (h1 : directiveOnlyFreevar s freevars = false) :
+    ∀ x ∈ freevars, x ∈ (convertEntity extra newName s).bodyRefs ∨ x ∈ (convertEntity extra newName s).defTimeRefs := by
+  intro x hx
+  simp only [directiveOnlyFreevar, List.any_eq_false, Bool.and_eq_true, Bool.not_eq_true',
+    decide_eq_false_iff_not, not_and, Decidable.not_not] at h1
+  by_cases hb : x ∈ (s.occs.filter (fun o => !o.inDirective)).map Occ.name
+  · left; simp only [convertEntity, List.mem_append]; exact Or.inl hb
+  · right; simp only [convertEntity, List.mem_append]; exact Or.inl (h1 x hx hb)
+
+private theorem succeeds_src (re : Nat → ObjId) (extra : List Name) (newName inner : Name) (M : List Name)
+    (s : Src) (c : Callable) (hdesc : Describes s c.fn)
+    (hfresh : FreshNames c.fn.code.freevars extra inner (convertEntity extra newName s))
+    (h1 : directiveOnlyFreevar s c.fn.code.freevars = false)
+    (h2 : annotationUnresolvable s c.fn.code.freevars M = false) :
+    ∃ g, transformFunction re extra newName inner M s c = .ok g := by
+  have hann : ∀ x ∈ (convertEntity extra newName s).defTimeRefs,
+      x ∈ innerBound extra (convertEntity extra newName s).name ∨ x ∈ c.fn.code.freevars ∨ x ∈ M := by
+    intro x hx
+    simp only [annotationUnresolvable, List.any_eq_false, Bool.and_eq_true, Bool.not_eq_true',
+      decide_eq_false_iff_not, not_and, Decidable.not_not] at h2
+    simp only [convertEntity, List.mem_append] at hx
+    rcases hx with hx | hx
+    · by_cases hf : x ∈ c.fn.code.freevars
+      · exact Or.inr (Or.inl hf)
+      · exact Or.inr (Or.inr (h2 x hx hf))
+    · left
+      split at hx
+      · simp at hx
+      · simp [innerBound, convertEntity, hx]
+  exact C09_succeeds re c.fn.code.freevars extra inner (convertEntity extra newName s) M
+    c.fn.globals c.fn.closure c.fn.defaults c.fn.kwdefaults hdesc.closure_len hdesc.nodup
+    (href_of_not_directive h1) hfresh hann
+
+/-- **Class 1, for all its members**: a free variable mentioned only in directive calls ⇒ the conversion raises
+"closure mismatch". -/
+theorem C09_class_directive (re : Nat → ObjId) (extra : List Name) (newName inner : Name) (M : List Name)
+    (s : Src) (c : Callable) (hdesc : Describes s c.fn)
+    (hfresh : FreshNames c.fn.code.freevars extra inner (convertEntity extra newName s))
+    (h1 : directiveOnlyFreevar s c.fn.code.freevars = true) :
+    transformFunction re extra newName inner M s c = .error .closureMismatch := by
+  simp only [directiveOnlyFreevar, List.any_eq_true, Bool.and_eq_true, Bool.not_eq_true',
+    decide_eq_false_iff_not] at h1
+  obtain ⟨z, hz, hz1, hz2⟩ := h1
+  have hzx : z ∉ extra := fun h => hfresh.locals_fresh z (by simp [innerBound, h]) hz
+  apply C09_mismatch re c.fn.code.freevars extra inner (convertEntity extra newName s) M c.fn.globals c.fn.closure
+    c.fn.defaults c.fn.kwdefaults hdesc.closure_len hdesc.nodup hfresh z hz
+  · simp only [convertEntity, List.mem_append, not_or]; exact ⟨hz1, hzx⟩
+  · simp only [convertEntity, List.mem_append, not_or]
+    refine ⟨hz2, ?_⟩
+    split
+    · simp
+    · exact hzx
+
+/-- **Class 2, for all its members** (every free variable still mentioned, annotations not naming generated
+names): an evaluated annotation naming a non-free, non-global name ⇒ the conversion raises NameError for such a
+name. -/
+theorem C09_class_annotation (re : Nat → ObjId) (extra : List Name) (newName inner : Name) (M : List Name)
+    (s : Src) (c : Callable) (hdesc : Describes s c.fn)
+    (hfresh : FreshNames c.fn.code.freevars extra inner (convertEntity extra newName s))
+    (h1 : directiveOnlyFreevar s c.fn.code.freevars = false)
+    (h2 : annotationUnresolvable s c.fn.code.freevars M = true)
+    (hgen : ∀ x ∈ s.annRefs, x ∉ innerBound extra newName) :
+    ∃ n ∈ s.annRefs, n ∉ M ∧ transformFunction re extra newName inner M s c = .error (.nameError n) := by
+  simp only [annotationUnresolvable, List.any_eq_true, Bool.and_eq_true, Bool.not_eq_true',
+    decide_eq_false_iff_not] at h2
+  obtain ⟨x, hx, hx1, hx2⟩ := h2
+  obtain ⟨n, hn, ⟨hn1, hn2⟩, hres⟩ := C09_name_error re c.fn.code.freevars extra inner (convertEntity extra newName s) M
+    c.fn.globals c.fn.closure c.fn.defaults c.fn.kwdefaults hdesc.closure_len hdesc.nodup
+    (href_of_not_directive h1) hfresh
+    ⟨x, by simp only [convertEntity, List.mem_append]; exact Or.inl hx, hgen x hx, hx1, hx2⟩
+  refine ⟨n, ?_, hn2, hres⟩
+  simp only [convertEntity, List.mem_append] at hn
+  rcases hn with hn | hn
+  · exact hn
+  · split at hn
+    · simp at hn
+    · exact absurd (by simp [innerBound, convertEntity, hn]) hn1
+
+private theorem kwdefaults_length (re : Nat → ObjId) (a : Arguments) :
+    (normD (a.defKwdefaults re)).length = a.kwWithDefault.length := by
+  have key : ∀ (ns : List Name) (ds : List (Option DExpr)),
+      ((ns.zip ds).filterMap (fun p => p.2.map (fun e => (p.1, evalD re e)))).length
+      = ((ns.zip ds).filterMap (fun p => p.2.map (fun _ => p.1))).length := by
+    intro ns
+    induction ns with
+    | nil => intro ds; simp
+    | cons n ns ih =>
+      intro ds
+      cases ds with
+      | nil => simp
+      | cons d ds => cases d <;> simp [ih ds]
+  simp only [Arguments.defKwdefaults, Arguments.kwWithDefault]
+  split
+  · rename_i h
+    rw [← key]
+    simp only [List.isEmpty_iff] at h
+    simp [normD, h]
+  · simp only [normD]; exact key _ _
+
+/-- **Class 3, for all its members** (outside classes 1 and 2): defaults emptied after definition ⇒ the
+conversion succeeds and the result's call interface differs from the source's (it has `None` defaults the
+source function does not have). -/
+theorem C09_class_cleared (re : Nat → ObjId) (extra : List Name) (newName inner : Name) (M : List Name)
+    (s : Src) (c : Callable) (hdesc : Describes s c.fn)
+    (hfresh : FreshNames c.fn.code.freevars extra inner (convertEntity extra newName s))
+    (h1 : directiveOnlyFreevar s c.fn.code.freevars = false)
+    (h2 : annotationUnresolvable s c.fn.code.freevars M = false)
+    (h3 : defaultsCleared s c.fn = true) :
+    ∃ g, transformFunction re extra newName inner M s c = .ok g ∧ g.callInterface ≠ c.fn.callInterface := by
+  obtain ⟨g, hg⟩ := succeeds_src re extra newName inner M s c hdesc hfresh h1 h2
+  refine ⟨g, hg, ?_⟩
+  obtain ⟨fc, _, _, _, _, _, hd, hkd⟩ := instantiate_ok_inv hg
+  have nt : ∀ {α : Type} (o : Option (List α)), truthy o = false → normD o = [] := by
+    intro α o ho
+    match o, ho with
+    | none, _ => rfl
+    | some [], _ => rfl
+  have hargs : (create c.fn.code.freevars extra inner (convertEntity extra newName s)).entity.args
+      = eraseDefaults s.args := rfl
+  simp only [defaultsCleared, Bool.or_eq_true, Bool.and_eq_true, Bool.not_eq_true'] at h3
+  intro heq
+  simp only [Fn.callInterface, Prod.mk.injEq] at heq
+  rcases h3 with ⟨ht, hne⟩ | ⟨ht, hne⟩
+  · have h0 := heq.2.1
+    rw [hd, nt _ ht] at h0
+    simp only [ht, Bool.false_eq_true, if_false, hargs] at h0
+    have : (eraseDefaults s.args).defaults ≠ [] := by
+      intro he
+      have : s.args.defaults = [] := by
+        simp only [eraseDefaults, List.map_eq_nil_iff] at he; exact he
+      simp [this] at hne
+    cases hdl : (eraseDefaults s.args).defaults with
+    | nil => exact this hdl
+    | cons a l => simp [Arguments.defDefaults, hdl, normD] at h0
+  · have h0 := heq.2.2
+    rw [hkd, nt _ ht] at h0
+    simp only [ht, Bool.false_eq_true, if_false, hargs] at h0
+    have hl := kwdefaults_length re (eraseDefaults s.args)
+    rw [h0, kwWithDefault_eraseDefaults] at hl
+    cases hk : s.args.kwWithDefault with
+    | nil => simp [hk] at hne
+    | cons a l => rw [hk] at hl; simp at hl
+
 /-! ## Non-vacuity: concrete instances satisfying the hypotheses
 
 Names (ranks): `0 = __class__`, `1 = a`, `2 = ag__`, `3 = ag__f`, `4 = b`, `5 = inner_factory`, `6 = k`,
@@ -1067,5 +1569,39 @@ theorem C09_defaults_counterexample :
   exact ⟨{ code := { params := [(8, .posOrKw), (6, .kwOnly)], freevars := [2] }, closure := [.factoryLocal 2],
            globals := 77, defaults := some [noneObj], kwdefaults := some [(6, noneObj)] },
          by decide, by decide, by decide⟩
+
+/-! ## Non-vacuity of the classifier, the refinement and the unwrapping -/
+
+/-- The example function is in the proved fragment; each counterexample carries exactly its own tag. -/
+example : why [2] 3 5 [9] exSrc (.function exFn) = [] ∧
+    why [2] 3 5 [] dirSrc (.function dirFn) = [Why.directiveOnly] ∧
+    why [2] 3 5 [9] annSrc (.function annFn) = [Why.annotation] ∧
+    why [2] 3 5 [] clrSrc (.function clrFn) = [Why.cleared] := by decide
+
+/-- A description that is not one of a CPython function object (closure shorter than `co_freevars`) and a user
+variable named like the extra local `ag__` (`2`) are outside the domain, not in a finding class. -/
+example : why [2] 3 5 [9] exSrc (.function { exFn with closure := [.outer 10] }) = [Why.closureLen] ∧
+    why [2] 3 5 [9] { exSrc with occs := exSrc.occs ++ [⟨2, false⟩] }
+      (.function { exFn with code := { exFn.code with freevars := [0, 1, 2, 4] },
+                             closure := [.outer 10, .outer 11, .outer 13, .outer 12] }) = [Why.nameCollision] := by
+  decide
+
+/-- `C09_refinement_partial` on the example (a bound method, docstring `7`, module of dict `77` is `770`): the
+result through the extracted statement list, with its name, qualified name, module, docstring and `__dict__`. -/
+example : toGraph (fun g => 10 * g) (fun i => 900 + i) [2] 3 5 6 [9] { exSrc with doc := some 7 } (.boundMethod 40 exFn) = .ok
+    { code := { params := [(7, .posOrKw), (8, .posOrKw), (6, .kwOnly)], freevars := [0, 1, 2, 4] }
+      closure := [.outer 10, .outer 11, .factoryLocal 2, .outer 12]
+      globals := 77, defaults := some [501], kwdefaults := some [(6, 502)]
+      name := 3, qualname := [6, 5, 3], module := 770, doc := some 7
+      dict := [.agModule, .agSourceMap, .autographInfo] } := by decide
+
+/-- `converted_call` on `partial(partial(obj.m, 11, k=21), 12, k=22, z=23)(13, w=24)`: the method's function is the
+target, the receiver `9` comes first, the frozen arguments in order, later keywords win. -/
+example : (unwrap (.partialOf (.partialOf (.boundMethod 9 exFn) [11] [(3, 21)]) [12] [(3, 22), (4, 23)]) [13] [(5, 24)]).args
+      = [9, 11, 12, 13] ∧
+    (unwrap (.partialOf (.partialOf (.boundMethod 9 exFn) [11] [(3, 21)]) [12] [(3, 22), (4, 23)]) [13] [(5, 24)]).kwargs
+      = [(3, 22), (4, 23), (5, 24)] ∧
+    (unwrap (.callableObject 9 exFn) [13] []).args = [9, 13] ∧
+    (bindPositional exFn.code.params [9, 13]).head? = some (7, 9) := by decide
 
 end Malt.Closure
